@@ -78,6 +78,11 @@ def levelOf (d : Dump) (depth : Int) : Option Level := d.levels.find? (fun l => 
 def firstI (m : Nat) : Int :=
   if m = 0 then -1 else (((List.range (m.log2 + 1)).find? (fun i => m.testBit i)).getD 0 : Nat)
 
+/-- strictly increasing list of ids -/
+def increasing : List Int → Bool
+  | a :: b :: rest => decide (a < b) && increasing (b :: rest)
+  | _ => true
+
 /-- clauses about one object; each returns `true` when satisfied -/
 def objClauses : List (String × (Dump → Aux → Obj → Bool)) := [
   ("id-is-position", fun d _ o => (d.objs[o.id]?).map (·.id) == some o.id),
@@ -248,7 +253,10 @@ def topClauses : List (String × (Dump → Aux → Bool)) := [
   ("numa-osindex-unique", fun d _ => ((d.objs.filter (fun o => o.type == tNUMA)).map (·.osidx)).Nodup),
   ("gp-index-unique", fun d _ => (d.objs.map (·.gp)).Nodup),
   ("normal-levels-nonempty", fun d _ => d.levels.all (fun l => decide (l.depth < 0) || !l.objs.isEmpty)),
-  ("depth-le-objects", fun d _ => decide (d.depth ≤ d.objs.length))
+  ("depth-le-objects", fun d _ => decide (d.depth ≤ d.objs.length)),
+  -- every level lists its objects in the order of the tree (ids are DFS order): hwloc_connect_levels and
+  -- hwloc_list_special_objects walk the tree left to right, logical indexes and cousin links follow
+  ("levels-in-tree-order", fun d _ => d.levels.all (fun l => increasing l.objs))
 ]
 
 /-- **well-formedness** (C01): every clause holds, for the topology and for every object -/
